@@ -43,7 +43,7 @@ func TestEnum(t *testing.T) {
 			if hx.Thorough() {
 				sibDepth = depth - 1
 			}
-			for _, p := range append(append([]string{}, paths...), PathsSib(sibDepth, SibOf(kind))...) {
+			for _, p := range append(append(append([]string{}, paths...), PathsSib(sibDepth, SibOf(kind))...), ProvisionedPaths...) {
 				idx++
 				if idx%n != sh {
 					continue
@@ -63,7 +63,7 @@ func TestEnum(t *testing.T) {
 
 func itoa(i int) string { return string(rune('0' + i)) }
 
-var segAlpha = []string{"in", "out", ".", "..", "", "in", "..", "new", "v", "w", "vx", "wx", ".."}
+var segAlpha = []string{"in", "out", ".", "..", "", "in", "..", "new", "v", "w", "vx", "wx", "..", "cp", "cpd"}
 
 func genPath(rt *rapid.T, maxSeg int) string {
 	n := 1 + hx.Uniform(rt, maxSeg, "nseg")
